@@ -78,6 +78,14 @@ func (rww ResponseWriterWrapper) WriteHeader(statusCode int) {
 	(*rww.w).WriteHeader(statusCode)
 }
 
+// Flush makes the wrapper an http.Flusher like the ResponseWriter it wraps, so that handlers which flush
+// (streaming, server-sent events) behave the same behind the logging middleware
+func (rww ResponseWriterWrapper) Flush() {
+	if f, ok := (*rww.w).(http.Flusher); ok {
+		f.Flush()
+	}
+}
+
 func (rww ResponseWriterWrapper) getResponseBody() string {
 	var buf bytes.Buffer
 	buf.WriteString(rww.body.String())
